@@ -187,7 +187,8 @@ FAULT_WEIGHTS = [("run", 2), ("torn", 3), ("flip", 3), ("garbage", 2), ("lose_li
                  ("lose_block", 3), ("dup_block", 3), ("move_block", 3), ("interleave", 3), ("concat", 2),
                  ("refold", 3), ("hostile_field", 6), ("token_subst", 5)]
 
-DAMAGE = ["trunc-value", "bad-value", "no-colon", "bad-param", "bad-name", "ctl-param", "empty-value"]
+DAMAGE = ["trunc-value", "bad-value", "no-colon", "bad-param", "bad-name", "ctl-param", "empty-value",
+          "bad-tail", "bad-head", "multi-value-line"]
 
 
 def _pick_doc(rng, pool):
@@ -537,6 +538,16 @@ def _damage(line, kind, g):
         out = g.choice([f"NA ME:{value}", f":{value}", f"NÄME*:{value}", f"{name}!:{value}", f"{name} :{value}"])
     elif kind == "ctl-param":
         out = f"{name};X=a\x01b:{value}"
+    elif kind == "bad-tail":
+        out = head + ":" + value + "," + g.choice(["garbage", "20200230", "PXD", "99999999T999999", "/"])
+    elif kind == "bad-head":
+        out = head + ":" + g.choice(["garbage", "20200230", "PXD", "/", ""]) + "," + value
+    elif kind == "multi-value-line":
+        # a comma-separated line of which only some entries are good: the whole line must go, not half of it
+        good_p, good_d = "20200310T100000Z/PT1H", "20200310T100000Z"
+        out = g.choice([f"FREEBUSY:{good_p},garbage", f"FREEBUSY:{good_p},{good_p},20200311T100000Z/20200310T100000Z",
+                        f"FREEBUSY;FBTYPE=BUSY:garbage,{good_p}", f"RDATE:{good_d},garbage", f"EXDATE:garbage,{good_d}",
+                        f"RDATE;VALUE=PERIOD:{good_p},20200101/20200102", f"FREEBUSY:{good_p},99991231T235959Z/PT1H"])
     else:
         out = head + ":"
     if "\n" in out or "\r" in out or out[:1] in (" ", "\t") or not out:
